@@ -421,9 +421,16 @@ impl<'a> Index<'a> {
                 for s in uses {
                     let uses_path_str = s.as_str();
                     uses_builder.push(uses_path_str);
+                    // search with a trailing separator, so that a target declared as `dir/`
+                    // is also found by a uses entry that names the directory as `dir`
+                    let uses_query = if uses_path_str.ends_with('/') {
+                        uses_path_str.to_owned()
+                    } else {
+                        format!("{}/", uses_path_str)
+                    };
                     let matching_targets: Vec<String> = targets_trie
-                        .common_prefix_search(uses_path_str)
-                        .filter(|t: &String| is_path_prefix(t, uses_path_str))
+                        .common_prefix_search(&uses_query)
+                        .filter(|t: &String| is_path_prefix(t, &uses_query))
                         .collect();
                     use2targets.entry(s).or_default().push(target_path_str);
                     // a dependency has been established between this target and some
